@@ -147,7 +147,7 @@ def monitor_lines(events):
         elif k == "reclaim":
             out.append(dict(D, k="reclaim", t=e["t"], x=e["id"], n=e["n"]))
         elif k == "final":
-            out.append(dict(D, k="final", cnt=e["cnt"][:8]))
+            out.append(dict(D, k="final", cnt=e["cnt"][:12]))
         elif k == "end":
             out.append(dict(D, k="end", status=e.get("status", "?")))
     return out
@@ -173,24 +173,41 @@ FIXED = [
     make("rt1.rt2.rt3.rt4.st", ["en1.lv1", "en2.lv2"], 2, 2, 0),
     make("rt1.rt2.rt3.rt4", ["en1.lv1"], 4, 1, 0),
     make("rt1.rt2.st", ["en1.lv1.en1.lv1"], 1, 1, 0),
-    make("rt1.rt2.rt3.st", ["en1.lv1"], 2, 1, 1),
-    make("rt1.rt2.rt3.rt4.rt5.rt6.st", ["en1.lv1"], 1, 1, 0),
     make("rt1.rt2.rt3.rt4.rt5.rt6", ["en1.lv1", "en2.lv2"], 2, 2, 1),
     make("rt1.rt2.rt3.st", [], 0, 0, 0),                     # default queue capacity, no region at all
-    make("rt1.rt2.rt3.rt4.rt5.st.st", [], 4, 0, 0),
+    make("rt1.rt2.rt3.rt4.st.st", [], 4, 0, 0),
     # stop() while a region is open: the region thread leaves 5 ms (virtual) later - hypothesis H2
     make("wt1.rt1.st", ["en1.sg1.sl5.lv1"], 2, 1, 0),
     make("wt1.rt1.rt2.rt3.st", ["en1.sg1.sl5.lv1"], 4, 1, 0),
     make("rt1.wt1.rt2.st", ["en1.sg1.sl5.lv1"], 1, 1, 1),
     # retire blocks: capacity 1, a region open for 20 ms holds everything back
-    make("wt1.rt1.rt2.rt3.rt4.rt5.st", ["en1.sg1.sl20.lv1"], 1, 1, 0),
-    make("wt1.rt1.rt2.rt3.rt4.rt5.rt6.rt7", ["en1.sg1.sl20.lv1"], 2, 1, 0),
+    make("wt1.rt1.rt2.rt3.rt4.st", ["en1.sg1.sl20.lv1"], 1, 1, 0),
+]
+# several retiring threads (ids 1.. / 5.. / 9..).  Flag 6 / 7: the other retirers are through (stop() must not overlap a
+# retire()), flag 4 / 5: the region threads are through (the epoch is destroyed afterwards).
+MULTI = [
+    # a thread that retires inside its own region, next to the owner's retirements: batches not sorted by epoch
+    ("rt1.rt2.wt6.st.wt4.dt_en1.rt5.sg6.sl8.lv1.sg4", 2, 1, 0),
+    ("rt1.rt2.rt3.wt6.st.wt4.dt_en1.rt5.rt6.sg6.sl8.lv1.sg4", 4, 1, 0),
+    ("rt1.wt6.st.wt4.dt_en1.rt5.sg6.sl5.lv1.sg4", 2, 1, 1),
+    # the second retirer starts 3 ms later: the pop index is odd, its two tasks are consumed across the ring wrap
+    ("rt1.wt6.st.wt4.dt_sl3.en1.rt5.rt6.sg6.sl8.lv1.sg4", 2, 1, 0),
+    # pure retirers contending for tickets
+    ("rt1.rt2.rt3.wt6.st.dt_rt5.rt6.rt7.sg6", 2, 0, 0),
+    ("rt1.rt2.wt6.wt7.st.dt_rt5.rt6.sg6_rt9.rt10.sg7", 4, 0, 0),
+    ("rt1.rt2.rt3.wt6.dt_rt5.rt6.rt7.sg6", 1, 0, 0),
+    # two retirers and a separate region thread
+    ("rt1.rt2.wt6.st.wt4.dt_wt1.rt5.rt6.sg6_en1.sg1.sl8.lv1.sg4", 2, 1, 0),
 ]
 PB = [
     make("rt1.st", ["en1.lv1"], 1, 1, 0),
-    make("rt1.rt2.st", ["en1.lv1"], 1, 1, 0),
     make("rt1.rt2", ["en1.lv1"], 2, 1, 0),
+    MULTI[0],
+    MULTI[3],
+    MULTI[4],
 ]
+# explored much harder when the code no longer follows the L2 specification
+STRESS = [MULTI[0], MULTI[3], MULTI[4], MULTI[5]]
 
 
 def gen_program(rng):
@@ -210,7 +227,34 @@ def gen_program(rng):
         regions.append(".".join([body] * rng.choice([1, 1, 2])))
     if nreg == 0:
         owner = [o for o in owner if o != "wt1"]
-    return make(".".join(owner), regions, cap, nreg, style)
+    prog, cap, nreg, style = make(".".join(owner), regions, cap, nreg, style)
+    shape = rng.random()
+    if shape < 0.35:
+        # a second thread retiring concurrently (ids 5..): the owner waits for it (flag 6) before stop() / the destructor
+        n2 = rng.randint(1, 3)
+        other = ".".join("rt%d" % (4 + i) for i in range(1, n2 + 1)) + ".sg6"
+        if nreg and rng.random() < 0.5:
+            other = "wt1." + other
+        threads = prog.split("_")
+        own = threads[0].split(".")
+        k = next(i for i, o in enumerate(own) if o.startswith("st") or o.startswith("wt4") or o.startswith("wt5") or o == "dt")
+        own.insert(k, "wt6")
+        n = min(n, 4)
+        own = [o for o in own if not (o.startswith("rt") and int(o[2:]) > 4)]
+        prog = "_".join([".".join(own)] + threads[1:] + [other])
+    elif shape < 0.6 and nreg >= 1:
+        # region thread 1 retires inside its region
+        threads = prog.split("_")
+        # never more retirements than queue + one batch can hold: a retire() inside a region that blocks for good
+        # would be a deadlock of the client
+        own = [o for o in threads[0].split(".") if not (o.startswith("rt") and int(o[2:]) > min(4, 2 * cap - 1))]
+        k = next(i for i, o in enumerate(own) if o.startswith("st") or o.startswith("wt4") or o.startswith("wt5") or o == "dt")
+        own.insert(k, "wt6")
+        r1 = threads[1].split(".")
+        j = r1.index("lv1")
+        r1[j:j] = ["rt5", "sg6"] if cap > 1 else ["sg6"]
+        prog = "_".join([".".join(own), ".".join(r1)] + threads[2:])
+    return prog, cap, nreg, style
 
 
 def params_of(prog, cap, nreg, style):
